@@ -467,17 +467,27 @@ class Client(ClientLike):
         Args:
             msg_list (Iterable[int]): A list of numeric message IDs to subscribe to
         """
-        msg_list = list(msg_list)  # cast arbitrary iterable to list
+        subscribed = self.subscribed_types
+        paused = self.paused_subscribed_types
+        new_list = []  # build a filtered list (do not edit a list while iterating over it)
         for mt in msg_list:
-            if mt in self.subscribed_types:
+            if mt in subscribed:
                 warn(
                     f"Message ID {mt} is already subscribed, ignored from subscription_context"
                 )
-                msg_list.remove(mt)
+            else:
+                new_list.append(mt)
 
-        self.subscribe(msg_list)
+        # types that were paused on entry go back to paused, not to unsubscribed
+        was_paused = [mt for mt in new_list if mt in paused]
+        not_paused = [mt for mt in new_list if mt not in paused]
+
+        self.subscribe(new_list)
         yield
-        self.unsubscribe(msg_list)
+        if not_paused:
+            self.unsubscribe(not_paused)
+        if was_paused:
+            self.pause_subscription(was_paused)
 
     @contextmanager
     def paused_subscription_context(self, msg_list: Iterable[int]):
@@ -489,17 +499,19 @@ class Client(ClientLike):
             msg_list (Iterable[int]): A list of numeric message IDs to temporarily unsubscribe to
         """
 
-        msg_list = list(msg_list)  # cast arbitrary iterable to list
+        subscribed = self.subscribed_types
+        new_list = []  # build a filtered list (do not edit a list while iterating over it)
         for mt in msg_list:
-            if mt not in self.subscribed_types:
+            if mt not in subscribed:
                 warn(
                     f"Message ID {mt} is not subscribed, ignored from paused_subscription_context"
                 )
-                msg_list.remove(mt)
+            else:
+                new_list.append(mt)
 
-        self.pause_subscription(msg_list)
+        self.pause_subscription(new_list)
         yield
-        self.resume_subscription(msg_list)
+        self.resume_subscription(new_list)
 
     @requires_connection
     def send_signal(
